@@ -121,6 +121,28 @@ def hooks():
             w.mut_handled = True
             return v0
         # ---------------------------------------------------------------- reads
+        if re.search(r"(HashMap::<K, V>|BTreeMap::<K, V>)::(new|with_capacity)$|HashMap::<K, V, S>::(with_hasher|with_capacity_and_hasher|default)$", nm):
+            return lst(())
+        if re.search(r"(HashMap::<K, V, S, A>|BTreeMap::<K, V, A>)::insert$", nm) and v0[0] == "list" and len(argv) > 2:
+            cell = _cell(w, env, a0)
+            k = w.deref_val(env, argv[1])
+            if cell is None or k == CW.TOP:
+                return None
+            items = [x for x in v0[1] if not (x[0] == "tuple" and x[1][0] == k)]
+            old = [x for x in v0[1] if x[0] == "tuple" and x[1][0] == k]
+            w.write_place(env, cell, lst(items + [("tuple", (k, argv[2]))]))
+            w.mut_handled = True
+            return CW.adt("std::option::Option", "Some", 1, [("0", old[0][1][1])]) if old else CW.adt("std::option::Option", "None", 0, [])
+        if re.search(r"HashMap::<K, V, S, A>::(values|into_values)$", nm) and v0[0] == "list":
+            return itr(tuple(x[1][1] for x in v0[1] if x[0] == "tuple" and len(x[1]) == 2))
+        if re.search(r"HashMap::<K, V, S, A>::(keys|into_keys)$", nm) and v0[0] == "list":
+            return itr(tuple(x[1][0] for x in v0[1] if x[0] == "tuple" and len(x[1]) == 2))
+        if re.search(r"HashMap::<K, V, S, A>::(iter|iter_mut|drain)$", nm) and v0[0] == "list":
+            return itr(v0[1])
+        if re.search(r"HashMap::<K, V, S, A>::len$", nm) and v0[0] == "list":
+            return CW.const(len(v0[1]))
+        if re.search(r"HashMap::<K, V, S, A>::is_empty$", nm) and v0[0] == "list":
+            return CW.const(1 if not v0[1] else 0)
         if re.search(r"vec::Vec::<T, A>::(len)$|slice::<impl \[T\]>::len$", nm) and v0[0] == "list":
             return CW.const(len(v0[1]))
         if re.search(r"vec::Vec::<T, A>::is_empty$|slice::<impl \[T\]>::is_empty$", nm) and v0[0] == "list":
